@@ -151,6 +151,12 @@ def o_process_start(I, fn, n, args, st):
     ev(I, "process_start", fn, n, args, st)
     fail = (failed(st, fn, n), I.neg())
     child = st.copy()
+    ends = set()
+    if isinstance(args[2], tuple) and args[2][0] == "agg":
+        for cell in args[2][1]:
+            for x in ("in", "out", "err"):
+                ends |= {a for a in (st.mem.get(("f", ("f", cell, "handle"), x)) or ()) if isinstance(a, tuple) and a[0] == "fd"}
+    child.mon["child_ends"] = frozenset(ends)
     child.mon["proc"] = "child"
     child.mon["sigmask"] = fs(("sym", "EMPTY"))
     pid = ("pid", "process_start", 0)
